@@ -81,12 +81,18 @@ C("mako.cache:Cache._ctx_get_or_create",
 
 _REQ = CONTRACTS["mako.cache:Cache._get_cache_kw"].requires
 _MOD = ["kw", "self._def_regions", "self.impl.store", "fresh_heap('ddom:Str~Any')", "fresh_heap('dval:Str~Any')"] + _LOG
+_ASKED_FROZEN = ("forall(lambda k: (k in G.impl_kw) == (k in old(self._def_regions[%s])) and implies(k in G.impl_kw, same(G.impl_kw[k], old(self._def_regions[%s][k]))), ty='Str')")
+_ASKED_FROZEN = _ASKED_FROZEN.replace("%s", "%(n)s")
 C("mako.cache:Cache.invalidate", params={"self": "Cache", "key": "Any", "**kw": "Dict[Str,Any]"},
   requires=_REQ, modifies=_MOD,
   ensures=[("entry-gone", "key not in self.impl.store"),
            ("other-entries-kept", "forall(lambda k: implies(k != key, (k in self.impl.store) == (k in old(self.impl.store)) and same(self.impl.store[k], old(self.impl.store)[k])), ty='Any')"),
            ("no-body-runs", "G.created == old(G.created)"),
-           ("asked-with-this-key", "same(G.impl_key, key)")],
+           ("asked-with-this-key", "same(G.impl_key, key)"),
+           ("a known section is invalidated with that section's own frozen arguments",
+            "implies(%s and old(kw)['__M_defname'] in old(self._def_regions), %s)" % (_HASDEF, _ASKED_FROZEN % {"n": "old(kw)['__M_defname']"})),
+           ("without a section name the template's arguments overridden by the given ones are used",
+            "implies(not %s, forall(lambda k: (k in G.impl_kw) == %s and implies(k in G.impl_kw, same(G.impl_kw[k], %s)), ty='Str'))" % (_HASDEF, _MERGED_KEYS, _MERGED_VAL))],
   raises={"*": {}}, props=["C17"], native_skip=True)
 C("mako.cache:Cache.set", params={"self": "Cache", "key": "Any", "value": "Any", "**kw": "Dict[Str,Any]"},
   requires=_REQ, modifies=_MOD,
@@ -111,5 +117,7 @@ for _name, _key, _params in (("invalidate_body", "'render_body'", {"self": "Cach
       modifies=["self._def_regions", "self.impl.store", "fresh_heap('ddom:Str~Any')", "fresh_heap('dval:Str~Any')"] + _LOG,
       ensures=[("the-section's-entry-is-gone", "box(%s) not in self.impl.store" % _key),
                ("other-entries-kept", "forall(lambda k: implies(k != box(%s), (k in self.impl.store) == (k in old(self.impl.store)) and same(self.impl.store[k], old(self.impl.store)[k])), ty='Any')" % _key),
-               ("no-body-runs", "G.created == old(G.created)")],
+               ("no-body-runs", "G.created == old(G.created)"),
+               ("a section that has been rendered is invalidated where it was stored: with its own frozen arguments",
+                "implies(len(%s) > 0 and box(%s) in old(self._def_regions), %s)" % (_key, _key, _ASKED_FROZEN % {"n": "box(%s)" % _key}))],
       raises={"*": {}}, props=["C17"], native_skip=True)
